@@ -19,9 +19,9 @@ OStr, OInt = TOpt(TStr), TOpt(TInt)
 def _tokenize(engine, args, kwargs, node, self_expr):
     (lst,) = args
     if not (isinstance(lst, list) and len(lst) == 3):
-        from pyvc.types import Unsupported
-
-        raise Unsupported("tokenize of something else than [ino, mtime, size]")
+        # any other argument shape: an unconstrained token (nothing is known about it, so whatever the contract of the caller
+        # says about the validity token has to fail rather than go undecided)
+        return ("__token__", TStr.fresh("token_of_other_shape"))
     engine.res.assumed_used.add("tokenize([ino, mtime, size]) is a function of the triple, injective (md5 of the repr: collision-free)")
     ino, mtime, size = lst
     return ("__token__", CK(lift(ino, OInt) if not isinstance(ino, SV) or ino.ty != OInt else ino,
